@@ -83,6 +83,21 @@ theorem loadPage_triple {a0 : Asset} {X : Nat} (fx : Fix) (r : Recv) (site : Sit
   intro s ⟨_, h2, h3⟩
   exact ⟨h2 (by omega), h3⟩
 
+theorem Recv.WF.load7ffd {r : Recv} (h : r.WF) (fx : Fix) (v : Nat) : (r.load7ffd fx v).WF := by
+  unfold Recv.load7ffd Recv.restore7ffd
+  split
+  · split
+    · rename_i hm
+      exact Recv.WF.write7ffd (r := { r with locked := false }) ⟨h.bank, fun _ => hm⟩ v
+    · exact h.write7ffd v
+  · exact h.write7ffd v
+
+theorem load7ffd_m128 (fx : Fix) (r : Recv) (v : Nat) : (r.load7ffd fx v).m128 = r.m128 := by
+  unfold Recv.load7ffd Recv.restore7ffd
+  split
+  · split <;> rw [write7ffd_m128]
+  · rw [write7ffd_m128]
+
 /-- a run of `ram_page_data_mut(page)` + `read_exact(page)`: all pages exist (or the site is repaired) -/
 theorem loadPages_triple {a0 : Asset} {X : Nat} (fx : Fix) (r : Recv) (site : Site) (k : ErrKind) :
     ∀ (pages : List Nat) (p b : Nat), (fx site = true ∨ ∀ q ∈ pages, q < r.ramPages) →
@@ -171,9 +186,9 @@ theorem sna128_triple {a0 : Asset} (fx : Fix) (r : Recv) (hr : r.WF)
   apply Triple.pure_pre; intro _; apply Triple.pure_pre; intro _
   apply Triple.bind (seekStart_triple 27 (by simp only [stepBound]; omega))
   intro _; apply Triple.pure_pre; intro _
-  have hr' := hr.write7ffd (a.u8 (t + 2))
-  have hm' := write7ffd_m128 r (a.u8 (t + 2))
-  generalize r.write7ffd (a.u8 (t + 2)) = r' at hr' hm'
+  have hr' := hr.load7ffd fx (a.u8 (t + 2))
+  have hm' := load7ffd_m128 fx r (a.u8 (t + 2))
+  generalize r.load7ffd fx (a.u8 (t + 2)) = r' at hr' hm'
   have h8 : r.m128 = true → r'.ramPages = 8 := by
     intro h; unfold Recv.ramPages; rw [hm', h]; rfl
   have hhead : fx .snaPage = true ∨ ∀ q ∈ [5, 2, r'.bank], q < r'.ramPages := by
